@@ -1429,3 +1429,21 @@ m('N2w-paths-shortcut-for-every-one-leaf-treespec-but-the-leaf', 'C04', 'N2w', '
 m('K8-broadcast-recursion-does-not-count-one-level', 'C16', 'K8', 'BroadcastToCommonSuffixImpl/depth-check', 'src/treespec/treespec.cpp',
   """            BroadcastToCommonSuffixImpl(nodes, traversal, cur, other_traversal, other_cur, depth + 1);""",
   """            BroadcastToCommonSuffixImpl(nodes, traversal, cur, other_traversal, other_cur, depth + 0);""")
+m('VG2-assert-exact-list-accepts-everything-but-lists', 'C07', 'VG2', 'AssertExactList', 'include/optree/pytypes.h',
+  """    if (!PyList_CheckExact(object.ptr())) [[unlikely]] {""",
+  """    if (PyList_CheckExact(object.ptr())) [[unlikely]] {""")
+m('VG2-dict-keys-equal-ignores-a-failed-lookup', 'C07', 'VG2', 'DictKeysEqual/(result', 'include/optree/pytypes.h',
+  """        if (result == -1) [[unlikely]] {
+            throw py::error_already_set();""",
+  """        if (result != -1) [[unlikely]] {
+            throw py::error_already_set();""")
+m('P1-flatten-up-to-none-node-accepts-anything-but-none', 'C07', 'P1', 'FlattenUpTo/None', 'src/treespec/flatten.cpp',
+  """                if (!object.is_none()) [[likely]] {""",
+  """                if (object.is_none()) [[likely]] {""")
+m('VG1-tensor-check-rejects-tensors', 'C20', 'VG1', 'torch._unravel_empty', 'optree/integration/torch.py',
+  """    if not torch.is_tensor(flat):
+        raise ValueError(f'Expected a tensor to unravel, got {type(flat)!r}.')
+    if flat.shape != (0,):""",
+  """    if torch.is_tensor(flat):
+        raise ValueError(f'Expected a tensor to unravel, got {type(flat)!r}.')
+    if flat.shape != (0,):""")
